@@ -8,6 +8,7 @@ import (
 	"fmt"
 	"net/http"
 	"net/url"
+	"os"
 	"sort"
 	"strconv"
 	"strings"
@@ -195,7 +196,15 @@ func etagHex(e string) string {
 	return e
 }
 
+// noteOp records the operation about to be issued (crash attribution for isolated runs)
+func (r *Runner) noteOp(what string) {
+	if r.c.Only != "" && r.c.Tmp != "" && isolateProps[r.c.R.Property] {
+		os.WriteFile(fmt.Sprintf("%s/lastop-%s.txt", r.c.Tmp, r.c.Only), []byte(what), 0644)
+	}
+}
+
 func (r *Runner) path(bucket, key string) string {
+	r.noteOp(fmt.Sprintf("bucket=%q key=%q (request on this path follows)", bucket, key))
 	p := "/" + impl.EscapePath(bucket)
 	if key != "" {
 		p += "/" + impl.EscapePath(key)
